@@ -155,6 +155,11 @@ fn just_below_shown_power_of_ten(x: f64, text: &str) -> bool {
     }
 }
 
+/// the exact error fraction can have hundreds of digits (subnormals): keep reports readable
+fn short(err: &str) -> String {
+    if err.len() <= 80 { err.to_string() } else { format!("{}… ({} chars)", &err[..60], err.len()) }
+}
+
 fn oracle(rep: &mut Report, model: &mut Model, x: f64, text: &str, via: &str) {
     let desc = format!("{:016x} ({:e}) via {}", x.to_bits(), x, via);
     let input = format!("{:016x}", x.to_bits());
@@ -185,7 +190,7 @@ fn oracle(rep: &mut Report, model: &mut Model, x: f64, text: &str, via: &str) {
         // cannot use up the report slots of any other inaccuracy
         let what = if j.kind == "std" && just_below_shown_power_of_ten(x, text) { "accuracy-carry-to-power-of-ten" } else { "accuracy" };
         rep.finding("oracle", what, &input,
-            &format!("{} shows {:?}: off by {} units of the 15th significant digit", desc, text, j.err), "c20.accuracy");
+            &format!("{} shows {:?}: off by {} units of the 15th significant digit", desc, text, short(&j.err)), "c20.accuracy");
     }
     if !j.half {
         rep.count("not-correctly-rounded-to-15-digits");
